@@ -1,0 +1,112 @@
+//! Verification hook (cargo feature `zvt_verif`, off by default).
+//!
+//! Lets a deterministic simulator decide the outcome of the file reads of the
+//! firmware upload (`feig::sequences::WriteFile`): a failing `open`, a failing
+//! or short `read_at`. With the feature off this module is not compiled and
+//! nothing changes. Without an installed injector every call goes straight to
+//! the real file.
+use ::std::cell::RefCell;
+use ::std::io;
+
+/// A file operation the simulator may interfere with.
+#[derive(Debug)]
+pub enum FsOp<'a> {
+    /// `File::open(path)`.
+    Open { path: &'a ::std::path::Path },
+    /// `file.read_at(buf, offset)` with `buf.len() == len`.
+    ReadAt {
+        path: &'a ::std::path::Path,
+        offset: u64,
+        len: usize,
+    },
+}
+
+/// What the simulator wants to happen.
+pub enum FsDecision {
+    /// Perform the real operation.
+    Real,
+    /// Fail with this error.
+    Fail(io::ErrorKind),
+    /// `read_at` only: read at most this many bytes (a short read).
+    Short(usize),
+}
+
+pub type FsInjector = Box<dyn FnMut(FsOp<'_>) -> FsDecision>;
+
+thread_local! {
+    static INJECTOR: RefCell<Option<FsInjector>> = RefCell::new(None);
+}
+
+/// Installs the injector consulted by every hooked file operation on this thread.
+pub fn install_fs(injector: FsInjector) {
+    INJECTOR.with(|c| *c.borrow_mut() = Some(injector));
+}
+
+/// Removes the injector of this thread.
+pub fn uninstall_fs() {
+    INJECTOR.with(|c| *c.borrow_mut() = None);
+}
+
+fn decide(op: FsOp<'_>) -> FsDecision {
+    INJECTOR.with(|c| match c.borrow_mut().as_mut() {
+        Some(injector) => injector(op),
+        None => FsDecision::Real,
+    })
+}
+
+/// Shadows the `std` crate name inside `WriteFile::into_stream`: everything is
+/// the real std except `fs::File`.
+pub mod std {
+    pub use ::std::*;
+
+    pub mod fs {
+        pub use ::std::fs::*;
+        use ::std::io;
+        use ::std::os::unix::fs::FileExt;
+        use ::std::path::{Path, PathBuf};
+
+        use super::super::{decide, FsDecision, FsOp};
+
+        /// Stand-in for [::std::fs::File].
+        pub struct File {
+            inner: ::std::fs::File,
+            path: PathBuf,
+        }
+
+        impl File {
+            pub fn open<P: AsRef<Path>>(path: P) -> io::Result<File> {
+                let path = path.as_ref();
+                match decide(FsOp::Open { path }) {
+                    FsDecision::Fail(kind) => Err(io::Error::new(kind, "zvt_verif: injected")),
+                    _ => Ok(File {
+                        inner: ::std::fs::File::open(path)?,
+                        path: path.to_path_buf(),
+                    }),
+                }
+            }
+
+            /// Inherent, so it takes precedence over [FileExt::read_at].
+            pub fn read_at(&self, buf: &mut [u8], offset: u64) -> io::Result<usize> {
+                let op = FsOp::ReadAt {
+                    path: &self.path,
+                    offset,
+                    len: buf.len(),
+                };
+                match decide(op) {
+                    FsDecision::Real => self.inner.read_at(buf, offset),
+                    FsDecision::Fail(kind) => Err(io::Error::new(kind, "zvt_verif: injected")),
+                    FsDecision::Short(n) => {
+                        let n = n.min(buf.len());
+                        self.inner.read_at(&mut buf[..n], offset)
+                    }
+                }
+            }
+        }
+
+        impl io::Seek for File {
+            fn seek(&mut self, pos: io::SeekFrom) -> io::Result<u64> {
+                self.inner.seek(pos)
+            }
+        }
+    }
+}
